@@ -70,6 +70,32 @@ Theorem C20_half_precision_vectors : forall v,
 Proof. exact half_vector_error. Qed.
 Print Assumptions C20_half_precision_vectors.
 
+(** the int8 clause, for EVERY finite float32 x in the trained range |x| <= absMax: the code is in
+    [-127, 127] and quantise + reconstruct stays within half a quantisation step plus float32 rounding,
+    |deq(q x) - x| <= absMax/254 + absMax * 2^-21 + 2^-149 over the reals (four correctly rounded float32
+    operations, one rounding to an integer, one exact conversion; through Flocq as above) *)
+From Comet Require Import Proofs.Int8P.
+Theorem C20_int8_roundtrip : forall x a,
+  fin32 x -> fin32 a -> (0 < R32 a)%R -> (Rabs (R32 x) <= R32 a)%R ->
+  let q := wrap8 (round_half_away (F32.mul (F32.div x a) c127)) in
+  let y := F32.mul (F32.div (F32.of_Z q) c127) a in
+  -127 <= q <= 127 /\
+  (Rabs (R32 y - R32 x) <= R32 a / 254 + R32 a * bpow radix2 (-21) + bpow radix2 (-149))%R.
+Proof. exact int8_roundtrip_error. Qed.
+Print Assumptions C20_int8_roundtrip.
+
+Theorem C20_int8_vectors : forall am v q d,
+  fin32 am -> (0 < R32 am)%R -> Forall (in_trained_range am) v ->
+  q8 am v = Some q -> dq8 am q = Some d ->
+  Forall (fun c => -127 <= c <= 127) q /\ Forall2 (within_int8_step am) v d.
+Proof. exact int8_vector_error. Qed.
+Print Assumptions C20_int8_vectors.
+
+Example C20_int8_range_inhabited :
+  fin32 1061158912 /\ fin32 F32.one /\ (0 < R32 F32.one)%R /\ (Rabs (R32 1061158912) <= R32 F32.one)%R /\
+  wrap8 (round_half_away (F32.mul (F32.div 1061158912 F32.one) c127)) = 95.
+Proof. exact int8_roundtrip_example. Qed.
+
 Example C20_half_range_inhabited : in_half_range 1065353216 /\ in_half_range 947912704 /\ in_half_range 1199562752.
 Proof. exact half_range_inhabited. Qed.
 
